@@ -20,6 +20,8 @@ import (
 type LexCase struct {
 	Input string   `json:"input"`
 	Ops   []string `json:"ops,omitempty"` // registered operator spellings; nil = the built-in table
+	// operator sets with which the same input was lexed earlier in this process (result not looked at)
+	Prev [][]string `json:"prev,omitempty"`
 }
 
 var builtinOpNames = func() []string {
@@ -65,6 +67,9 @@ func checkLex(c *LexCase) *Outcome {
 		names = builtinOpNames
 	}
 	want, werr := ref.Lex(c.Input, names)
+	for _, prev := range c.Prev {
+		_, _ = yaeLex(c.Input, prev)
+	}
 	got, p := yaeLex(c.Input, c.Ops)
 	runes := []rune(c.Input)
 	desc := fmt.Sprintf("input %q ops %v", c.Input, c.Ops)
@@ -136,6 +141,9 @@ func checkLex(c *LexCase) *Outcome {
 	}
 	// ---- classes
 	classes := []string{}
+	if len(c.Prev) > 0 {
+		classes = append(classes, "after-sibling-operator-set")
+	}
 	multi, nl := false, strings.Contains(c.Input, "\n")
 	kinds := map[string]bool{}
 	for _, t := range want {
@@ -210,7 +218,63 @@ var lexSnippets = []string{"true", "false", "truex", "falsey", "xtrue", "and", "
 	".", "?", ":", ",", "(", ")", "[", "]", "{", "}", "<", "<=", "==", "!=", "!", "&&", "||", "+", "-", "*", "/", "%", "^", ">=", ">", "=", "&", "|", "~", "@", "#", "$", "\\", "ˆ", ".^.", "?.", "..", "<=>", "=>", "ˆ.ˆ", "<ˆ>",
 	" ", "  ", "\t", "\n", "\r\n", " ", "　", "\v", ";", "\"", "'", "`", "💥"}
 
+// siblingOps: the same characters split into other spellings, one spelling more or fewer,
+// another order.
+func siblingOps(t *rapid.T, names []string) []string {
+	out := append([]string(nil), names...)
+	if len(out) == 0 {
+		return out
+	}
+	i := rapid.IntRange(0, len(out)-1).Draw(t, "i")
+	switch rapid.IntRange(0, 4).Draw(t, "sibling") {
+	case 0: // split one spelling into two
+		r := []rune(out[i])
+		if len(r) >= 2 {
+			k := rapid.IntRange(1, len(r)-1).Draw(t, "cut")
+			out[i] = string(r[:k])
+			out = append(out, string(r[k:]))
+		}
+	case 1: // glue two spellings
+		j := rapid.IntRange(0, len(out)-1).Draw(t, "j")
+		if i != j {
+			out[i] = out[i] + out[j]
+			out = append(out[:j], out[j+1:]...)
+		}
+	case 2:
+		out = append(out[:i], out[i+1:]...)
+	case 3:
+		for a, b := 0, len(out)-1; a < b; a, b = a+1, b-1 {
+			out[a], out[b] = out[b], out[a]
+		}
+	default:
+		out = append(out, out[i]+out[i])
+	}
+	seen := map[string]bool{}
+	var ded []string
+	for _, n := range out {
+		if n != "" && !seen[n] {
+			seen[n] = true
+			ded = append(ded, n)
+		}
+	}
+	return ded
+}
+
 func genLexCase(t *rapid.T) *LexCase {
+	c := genLexCase0(t)
+	if rapid.IntRange(0, 2).Draw(t, "withprev") == 0 {
+		names := c.Ops
+		if names == nil {
+			names = builtinOpNames
+		}
+		if sib := siblingOps(t, names); len(sib) > 0 {
+			c.Prev = append(c.Prev, sib)
+		}
+	}
+	return c
+}
+
+func genLexCase0(t *rapid.T) *LexCase {
 	c := &LexCase{Ops: genOps(t)}
 	switch rapid.IntRange(0, 2).Draw(t, "inputkind") {
 	case 0:
@@ -293,7 +357,7 @@ func eachLexStringOver(lexAlphabet []string, maxLen int, ops []string) func(yiel
 }
 
 func TestC09(t *testing.T) {
-	R.Rule = "input strings over a mixed alphabet (operator characters, ASCII and non-ASCII letters, digits, punctuation, the three quote characters, backslash, blank, tab, line breaks, U+00A0, U+3000): exhaustively up to length 4 (quick) / 5 (thorough) over a 16-symbol alphabet for the built-in and one overlapping custom operator set, to length 5 / 6 over a 9-symbol alphabet around the non-ASCII operator character U+02C6 with operators spelled with it, and randomly (snippet soup, operator glue, raw runes) to length ~60 under drawn operator sets with prefix-overlapping symbols, identifier-like operators and operators containing . or ?; oracle: a hand-written reference scanner of the documented lexicon (identical token list with kinds, lexemes, ranges, lines, columns, or both reject) plus reference-free partition invariants; non-trivial = >= 2 tokens with a multi-rune token or a line break, or rejected after >= 1 token"
+	R.Rule = "input strings over a mixed alphabet (operator characters, ASCII and non-ASCII letters, digits, punctuation, the three quote characters, backslash, blank, tab, line breaks, U+00A0, U+3000): exhaustively up to length 4 (quick) / 5 (thorough) over a 16-symbol alphabet for the built-in and one overlapping custom operator set, to length 5 / 6 over a 9-symbol alphabet around the non-ASCII operator character U+02C6 with operators spelled with it, and randomly (snippet soup, operator glue, raw runes) to length ~60 under drawn operator sets with prefix-overlapping symbols, identifier-like operators and operators containing . or ?; one random case in three first lexes the same input with a sibling operator set (one spelling split in two, two glued, one dropped, doubled, another order) in the same process; oracle: a hand-written reference scanner of the documented lexicon (identical token list with kinds, lexemes, ranges, lines, columns, or both reject) plus reference-free partition invariants; non-trivial = >= 2 tokens with a multi-rune token or a line break, or rejected after >= 1 token"
 	R.Assume = []string{"ref.Lex is the reading of the documented lexicon; operator sets avoid ':' (also punctuation) and the words true/false"}
 	reportKnown(t, "C09")
 	runRegress(t, "C09")
